@@ -317,7 +317,7 @@ pub fn run(ctx: &Ctx) -> i32 {
         salt: 0x2001_0000,
         nshards: 64,
         enumerated: &enumerated,
-        random_cases: tier.pick(4_000_000, 60_000_000),
+        random_cases: tier.pick(4_000_000, 240_000_000),
         build_random: &|e| build(e, None),
         classify: &|c, j, t: &Tag, s| classify(c, j, t, s),
         all_quirks: true,
